@@ -725,7 +725,7 @@ class Runner:
             arc = np.array(p.arccoord, dtype=float)
             w = op['where']
             L = arc[-1]
-            a = {'knots': arc.copy(), 'mid': np.concatenate([arc[:1], (arc[1:] + arc[:-1]) / 2, arc[-1:]]),
+            a = {'knots': arc.copy(), 'reversed': arc[::-1].copy(), 'mid': np.concatenate([arc[:1], (arc[1:] + arc[:-1]) / 2, arc[-1:]]),
                  'below': np.array([-0.25 * L, L / 2]), 'above': np.array([L / 2, L * 1.25]),
                  'hair-below': np.array([-L * 2.0 ** -30, L / 2]), 'hair-above': np.array([L / 2, np.nextafter(L, np.inf)])}[w]
             keep = a.copy()
@@ -847,7 +847,7 @@ def _gen_sequence(rng, nops, tier_big=False):
                 'gname': rng.choice(_GNAMES[g]), 'kw': gen_kw(g), 'kwform': rng.choice(['dict', 'none', 'absent']),
                 'integ': st['integ'], 'iname': rng.choice(_INAMES[st['integ']]), 'call': rng.choice(['kw', 'kw', 'pos']),
                 'share': share}
-    sts = [{'n': rng.choice([1, 2, 2, 2, 2, 3, 3, 4, 5, 6]), 'g': rng.choice(['cd', 'cd', 'an']), 'integ': rng.choice(['euler', 'rk', 'rk']),
+    sts = [{'n': rng.choice([1, 2, 2, 2, 2, 3, 3, 4, 5, 6, 7, 8]), 'g': rng.choice(['cd', 'cd', 'an']), 'integ': rng.choice(['euler', 'rk', 'rk']),
             'dictshared': False}]
     ops = [gen_new(sts[0]), gen_obs()]
     if rng.random() < 0.3:
@@ -877,12 +877,17 @@ def _gen_sequence(rng, nops, tier_big=False):
         if r < 0.25:
             how = rng.random()
             if how < 0.4 or n < 2:
-                n = rng.choice([n, n, max(2, n - 1), n + 1, 2]) if how > 0.2 else n
-                n = max(1, min(7, n))
+                n0 = n
+                n = rng.choice([n, n, max(2, n - 1), n + 1, 2, 6, 8]) if how > 0.2 else n
+                n = max(1, min(9, n))
                 ints = rng.random() < 0.15
                 rows = _gen_rows(rng, n, dim, span=4.0, bits=0) if ints else _gen_rows(rng, n, dim)
+                if n != n0 and rng.random() < 0.5:
+                    ops.append({'op': 'defaults'})      # the defaults follow the number of images: before and after
                 ops.append({'op': 'set_coord', 'coord': rows, 'as': rng.choice(['intlist', 'intarray']) if ints else rng.choice(_COORD_FORMS),
                             'how': 'fresh'})
+                if n != n0:
+                    ops.append({'op': 'defaults'})
                 st['n'] = n
             else:
                 ops.append({'op': 'set_coord', 'how': 'perturb', 'as': rng.choice(_COORD_FORMS),
@@ -913,7 +918,7 @@ def _gen_sequence(rng, nops, tier_big=False):
         elif r < 0.81:
             ops.append({'op': 'defaults'})
         elif r < 0.85 and n >= 2:
-            ops.append({'op': 'interp', 'where': rng.choice(['knots', 'knots', 'mid', 'mid', 'below', 'above', 'hair-below', 'hair-above'])})
+            ops.append({'op': 'interp', 'where': rng.choice(['knots', 'knots', 'reversed', 'mid', 'mid', 'below', 'above', 'hair-below', 'hair-above'])})
         elif r < 0.92:
             climb = None
             if n >= 3 and rng.random() < 0.5:
@@ -1355,8 +1360,9 @@ def _check_interp(ctx, report, model_kind, sh, op, res, raised):
     arc, _ = _geometry(sh.coord)
     seg = [b - a for a, b in zip(arc, arc[1:])]
     amp = (max(seg) / min(seg)) ** 2
-    if w == 'knots':
-        want = np.array(sh.coord, dtype=float)
+    if w in ('knots', 'reversed'):
+        # the path's own arc coordinates (in path order, or listed from the far end): the images come back in that order
+        want = np.array(sh.coord, dtype=float)[::(1 if w == 'knots' else -1)]
         tol = 1e3 * EPS * scale * amp
     else:
         if model_kind != 'oracle' or amp > 1e4:
@@ -1367,7 +1373,7 @@ def _check_interp(ctx, report, model_kind, sh, op, res, raised):
         tol = 1e4 * EPS * scale * amp
     got = res['coord']
     if got.shape != want.shape or not (np.abs(got - want) <= tol).all():
-        report('path:interpolate', f'interpolate_path at {"the arc coordinates of the images" if w == "knots" else "the segment midpoints"} '
+        report('path:interpolate', f'interpolate_path at {"the arc coordinates of the images" if w in ("knots", "reversed") else "the segment midpoints"} '
                f'{res["arc"].tolist()} of coord {sh.coord} returned {got.tolist()}, expected {want.tolist()}')
 
 
@@ -1881,6 +1887,20 @@ RULE = ('random dyadic matrices A (dim 1-6), vectors y, steps h for euler/rungek
         'through the keyword arguments of the step (defaults zero), at a common scale 2^k; relax with a scripted step and image '
         'energies tabulated per (image, steps behind the string) over few values (ties, flat tops, high end images), 2-8 '
         'images, climbpoints None/0/1/2/3/N, against climbIndices; relax ops with climbpoints and, on longer paths, a tolerance. '
+        'Round 3 (cross-cutting): the reads after each operation come in a random order, sometimes only some of them, and in one '
+        'case of five the arrays returned are overwritten afterwards; coordinates and settings are read again after the reads; '
+        'images handed over as float64 / float32 / integer array, nested list / tuple, Fortran-ordered, strided view, read-only; '
+        'in 30% of the sequences a second path is built from the very same array object and/or settings dictionary (or both '
+        'without settings) and the operations alternate between the two; the caller edits the array it handed over; step / '
+        'relax called with keywords or positionally, the time step as float / numpy float64 / float32 / 0-d array / 0, '
+        'climbindex as int / numpy integer / list / tuple / int64 / int32 array / empty, climbpoints 0, verbose left at its '
+        'default; constructors called positionally; interpolate_path at its knots in path order and reversed, a hair '
+        '(next double; 2^-30 of the length) outside [0, length]; default_timestep/tolerance before and after a change of the '
+        'number of images (1-9); every sixth oracle sequence under other working units; constructor refusals and option '
+        'spellings; integrator inputs as list / tuple / float32 / integer / Fortran / strided / read-only arrays, h = 0, the state '
+        'at 2^k up to |k| = 1000; central_difference points in the same containers, energy functions returning Python floats / '
+        '0-d arrays for a single point; tabulated energies with neighbours within 2^-20…2^-50, with inf / nan entries (oracle '
+        'only), in units of 2^±1000; paths in units of length up to 2^±300. '
         'distinct = distinct canonical input line / (state, operation); non-trivial = A, y non-zero and h != 0, at least '
         'two images')
 ASSUMPTIONS = ['IEEE double rounding of the implementation is bounded by rtol 1e-9 on the dyadic integrator inputs (|.|<=8, '
@@ -2966,8 +2986,10 @@ MANIFEST = {
             'operation sequences on one object. A step commutes with a change of the unit of the state and of time '
             '(homogeneity theorems; tied by scale sweeps 2^-60…2^60), the climbing images relax chooses are the first '
             'climbpoints interior maxima (climbIndices theorems; tied through a scripted relax), tangents do not depend on '
-            'the unit of length. Relaxation to the saddle is partial (explored on the implementation, mirror-symmetric '
-            'strings included).',
+            'the unit of length. A whole step (integration + any re-spacing that keeps first, last and climbing rows) that '
+            'returns its string has those rows at critical points; the stopping test of relax bounds the gradient at the kept '
+            'images by the tolerance (Euler); a phase that stops early stopped on that test. Relaxation to the saddle is '
+            'partial (explored on the implementation, mirror-symmetric strings included).',
     'note': 'Trusted: Lean kernel + propext/Classical.choice/Quot.sound; the AST translator (harness/translate.py, '
             'props/c20.py); numpy matmul/einsum/norm, scipy CubicSpline at its knots; float rounding bounded by derived '
             'first-order bounds in the correspondence. Convergence of relax() and the re-spaced interior images of a '
